@@ -124,8 +124,11 @@ def run_one(module, R, keep_trace=False, watchdog=60.0):
     """Execute one run descriptor.  Returns a JSON-able outcome dict."""
     from . import seams
 
+    import time as _real  # diagnostics only (never enters a digest)
+
     ctx = Ctx(keep_trace=keep_trace)
     out = {"seed": R.get("seed"), "index": R.get("index")}
+    _t0 = _real.perf_counter()
     old = signal.signal(signal.SIGALRM, _alarm)
     signal.setitimer(signal.ITIMER_REAL, watchdog)
     reclimit = sys.getrecursionlimit()
@@ -154,6 +157,7 @@ def run_one(module, R, keep_trace=False, watchdog=60.0):
         seams.SINK.listener = None
         sys.setrecursionlimit(reclimit)
         seams.reset_library_globals()
+    out["real_s"] = round(_real.perf_counter() - _t0, 4)
     out["digest"] = ctx.digest()
     out["n_events"] = ctx.n_events
     out["probes"] = ctx.probes
